@@ -422,7 +422,8 @@ def fit_scipy(
             print(args_name[i], gs[i], gs0[i])
         fcn.vm.set_all(xn)  # the last evaluation was at a displaced point
     if standard_complex:
-        fcn.vm.standard_complex()
+        # the bound transforms are removed by now: name the bounded parts
+        fcn.vm.standard_complex(bounded=bounds_dict)
     params = fcn.get_params()  # vm.get_all_dic()
     return FitResult(
         params, fcn, min_nll, ndf=ndf, success=success, hess_inv=hess_inv
